@@ -348,7 +348,7 @@ def task(args):
 def run(run):
     cat.discover()
     factors = (0.0, 0.25, 0.5, 1.0) if run.tier == "quick" else (0.0, 0.25, 0.5, 0.75, 1.0)
-    maxlen = 3 if run.tier == "quick" else 4
+    maxlen = 3 if run.tier == "quick" else 5
     sp = specs(run.tier)
     tasks = [("scale", sp[i:i + 3], factors, maxlen) for i in range(0, len(sp), 3)]
     tasks.append(("observable", None, factors, maxlen))
